@@ -8,6 +8,13 @@ def hook_commits():
     return [l.split()[0] for l in out.splitlines() if "verif hook" in l]
 
 CLAIMED = {
+ "C07": dict(
+   level="exploration",
+   text="Real producer node (genesis from an issuance file, timer-driven bundling through the real mempool incl. staking transaction, golden tickets from the real MiningThread with seeded nonces) plus 1-2 independent observer nodes that learn of blocks only through announce -> fetch -> verify -> add, and a scripted wallet submitting payments (random fees, routed, conflicting pairs, dust) through the producer's routing/verification path; genesis period 3..100, heartbeat 0.2..5 s, three issuance scales; producer clock skew, observer crash+restart. Oracle: no panics, every bundled block becomes the producer's tip, every connected observer is on the producer's tip at quiescence.",
+   design="§6 C07",
+   note="Trusted: SimNet/fetch-server stubs, scripted wallet. Event-granularity scheduling; staking off. The producer-chain builder used by C02/C12/C13 additionally reports 'producer refused own block' as a probe.",
+   technique="deterministic simulation: real producer (timer, mempool, miner) + independent observer nodes on a simulated network, adoption/convergence oracle under clock skew and restarts"),
+
  "C12": dict(
    level="fault_enumeration",
    text="Histories (producer chain over genesis period 3..6 with rebroadcast, pruning and purge, optional side fork) delivered to a real full node whose simulated disk journals every write/remove; every journal prefix x tear class {absent, empty, header cut, half, all-but-last-byte, complete} of the next operation is a crash image on which a brand-new node runs the real start-up (Wallet::load, ConsensusThread::on_init, delete_old_blocks on/off). Oracle: no panic; restarted tip was given to the node before the crash point; in-window spendable value equals the reference ledger at that tip; conservation equation; clean shutdown restarts at the same tip; the node adopts the next three blocks.",
